@@ -826,16 +826,51 @@ def translate(run):
 
     seen_sbatch = set()
     n = len(tr)
+
+    def wrote_cfg_after(i, pid):
+        """did process pid write cluster_config.json right after event i (before its next own non-file event)?"""
+        for x in tr[i + 1:]:
+            if x[2] != pid:
+                continue
+            if x[1] == "mut":
+                if x[3] == "cluster_config.json" and x[4].startswith("open-w"):
+                    return True
+            elif x[1] in ("acq", "rel"):
+                continue
+            else:
+                return False
+        return False
+
+    promoted = set()
     for i, e in enumerate(tr):
         k = e[1]
+        if k in ("demote", "markcomplete", "markcanceled") and not wrote_cfg_after(i, e[2]):
+            continue          # killed / failed before the file was written: nothing happened
+        if k in ("kill", "killin", "failwrite") and kinds.get(e[2]) in SUBKINDS:
+            # died / failed inside `_move_results` after the copy, before the removal
+            step_evs = [x for x in tr[:i] if x[0] == e[0] and x[2] == e[2]]
+            copied = [j_ for j_, x in enumerate(step_evs) if x[1] == "mut" and x[3] == "processed_results.csv" and x[4].startswith("open-a")]
+            if copied and not any(x[1] in ("move", "row") for x in step_evs[copied[-1]:]):
+                locks = [x[3] for x in step_evs if x[1] == "acq" and x[3].startswith("results_batch_")]
+                if locks:
+                    emit("collectCopy", None, p=e[2], b=int(locks[-1].split("_")[2].split(".")[0]))
+        if k in ("kill", "killin", "failwrite") and kinds.get(e[2]) in SUBKINDS and e[2] not in promoted:
+            # killed inside the promotion section after the file write: the role is taken
+            same = [x for x in tr[:i] if x[0] == e[0] and x[2] == e[2] and x[1] == "mut" and x[3] == "cluster_config.json" and x[4].startswith("open-w")]
+            if same:
+                emit("promote", "*", p=e[2])
+                promoted.add(e[2])
         if k == "spawn":
             _, _, pid, kind, host = e
             if kind in SUBKINDS:
                 emit("spawnSub", None, p=pid, isCancel=(kind == "cancel"))
                 if kind == "submit":
                     emit("promote", True, p=pid)     # Cluster.create: submitter from birth
+                    promoted.add(pid)
         elif k == "promote":
             emit("promote", bool(e[3]), p=e[2])
+            if e[3]:
+                promoted.add(e[2])
         elif k == "squeue":
             pid = e[2]
             if kinds.get(pid) in SUBKINDS and kinds.get(pid) != "cancel" and e[3] != "FAILED":
@@ -927,7 +962,7 @@ def translate(run):
     # final observations
     st = vc.read_status()
     final = {"marker": vc.marker(), "starts": [jid(e[4]) for e in tr if e[1] == "start"],
-             "completions": sum(1 for e in tr if e[1] == "markcomplete")}
+             "completions": sum(1 for ev in evs if ev["op"] == "flag")}
     rows = []
     try:
         from vcluster import REAL_OPEN
